@@ -487,6 +487,15 @@ impl World {
         };
         // foreign-encoder choice of header format: random legal
         let mut m = m;
+        // commands usually travel on message stream 0; nothing obliges a peer to (the handlers
+        // of connect, createStream, closeStream, deleteStream, _result, _error take the stream
+        // they act on from their arguments)
+        if m.type_id == 20 && m.msid == 0 && ctx.ch.chance("op.arg.cmdsid", 1, 10) {
+            m.msid = self.pick_sid(ctx);
+            if m.msid != 0 {
+                ctx.probe("peer.command_on_nonzero_stream");
+            }
+        }
         if (m.type_id == 20 || m.type_id == 18) && ctx.ch.chance("op.arg.amf3flag", 1, 10) {
             ctx.probe("peer.amf3_flagged_message");
             if m.type_id == 20 {
